@@ -23,7 +23,7 @@ EXPLANATION = (
     "mailbox separator pattern, folded from the source, is evaluated over the finite table of boundary contexts {start of "
     "file, after a blank line, after a message body} x {LF, CRLF} x {separator line, quoted '>From', 'From' in mid line}: it matches "
     "exactly at line starts in both conventions. (ROUTE) iterate_supported_attachments chooses the extractor by attachment "
-    "name first and by MIME type second, isolates each attachment in its own try, and rewinds the stream before and after."
+    "name first and by MIME type second, isolates each attachment in its own try, and rewinds the stream before and after. (BYTES) no bytes -> str -> bytes chain in a function that builds EmailAttachment (an attachment is a file; only the transfer encoding is undone); header text is not rebuilt with email.header.make_header, whose Header.__str__ inserts spaces between charset chunks."
 )
 NOT_DECIDED = ["decoded header / address / body values", "date conversion", "charset fallbacks", "that mailparser and the stdlib parser agree on a given message",
                "attachments whose MIME type is generic (application/octet-stream) are skipped although their name is supported (is_supported_mime_type gate, documented behaviour)"]
